@@ -195,6 +195,20 @@ impl Janitor {
       let key_hash = crate::store::hash_key(&context.store.hasher, key);
 
       if expired_set.contains(&key_hash) {
+        // The wheel counts maintenance passes, not elapsed time, it is keyed by hash (other
+        // keys can share it) and timers of replaced entries may still be pending: a fired
+        // timer is only a hint. Never collect an entry that has not actually expired;
+        // re-arm the hint with the time that is left instead.
+        if !entry.is_expired(context.time_to_idle) {
+          let expires_at = entry.expires_at.load(Ordering::Relaxed);
+          if expires_at > 0 {
+            let now = crate::time::now_duration().as_nanos() as u64;
+            if let Some(wheel) = &shard.timer_wheel {
+              wheel.schedule(key_hash, Duration::from_nanos(expires_at.saturating_sub(now)));
+            }
+          }
+          return true;
+        }
         context.cache_policy[shard_index].on_remove(key);
         context
           .metrics
